@@ -75,21 +75,34 @@ def build_tu(tu, repo, inc_hash, eng_hash, verbose=True):
     out = os.path.join(BUILD, 'bin', '%s-%s' % (tu['name'], key))
     if os.path.exists(out):
         return out, 0.0, True
-    # drop stale binaries of this TU
+    # drop stale binaries of this TU — but never one another run may still be using (a concurrent check of the same property against
+    # another tree, e.g. tools/run_mutants.py): only files not touched for two hours, and the two most recent ones are always kept
+    mine = []
     for f in os.listdir(os.path.join(BUILD, 'bin')):
-        if f.startswith(tu['name'] + '-'):
+        if f.startswith(tu['name'] + '-') and '.tmp' not in f:
+            try: mine.append((os.path.getmtime(os.path.join(BUILD, 'bin', f)), f))
+            except OSError: pass
+    for f in os.listdir(os.path.join(BUILD, 'bin')):          # temporaries left by an interrupted build
+        if f.startswith(tu['name'] + '-') and '.tmp' in f:
+            try:
+                if time.time() - os.path.getmtime(os.path.join(BUILD, 'bin', f)) > 7200: os.unlink(os.path.join(BUILD, 'bin', f))
+            except OSError: pass
+    mine.sort(reverse=True)
+    for mt, f in mine[2:]:
+        if time.time() - mt > 7200:
             try: os.unlink(os.path.join(BUILD, 'bin', f))
             except OSError: pass
     cxx = tu.get('cxx', 'g++')
+    tmp_out = '%s.tmp.%d' % (out, os.getpid())      # two runs building the same binary must not share the temporary
     cmd = [cxx] + flags + ['-I', os.path.join(repo, 'include'), '-I', os.path.join(VERIF, 'engine'),
-                           '-I', os.path.join(VERIF, 'harness'), src, '-o', out + '.tmp'] + libs
+                           '-I', os.path.join(VERIF, 'harness'), src, '-o', tmp_out] + libs
     t0 = time.time()
     p = subprocess.run(cmd, stdout=subprocess.PIPE, stderr=subprocess.STDOUT, text=True)
     dt = time.time() - t0
     if p.returncode != 0:
         sys.stderr.write('BUILD FAILED: %s\n%s\n' % (' '.join(shlex.quote(c) for c in cmd), p.stdout[-6000:]))
         return None, dt, False
-    os.replace(out + '.tmp', out)
+    os.replace(tmp_out, out)
     return out, dt, False
 
 
